@@ -88,6 +88,11 @@ Definition group_mis_y (observed : list (str * list (N * obs))) (g : group) : li
 Definition bind_mis_y (gs : list group) (observed : list (str * list (N * obs))) : list N :=
   flat_map (group_mis_y observed) gs.
 
+(** ids excused by the harness (release drift on platforms the installed release cannot decide;
+    always empty for the host platform) *)
+Definition without (ex : list N) (l : list N) : list N :=
+  filter (fun id => negb (existsb (N.eqb id) ex)) l.
+
 (** ids of the rows that do not denote their object exactly (G); on the unchanged tree these are
     the rows of the known finding *)
 Definition bind_inexact (gs : list group) : list N := flat_map (bad_row_ids const_g) gs.
